@@ -87,6 +87,14 @@ Theorem C11_dir_row_sound :
 Proof. exact dir_row_sound. Qed.
 Print Assumptions C11_dir_row_sound.
 
+(* restriction as scaled transpose of a prolongation (Rspace = restr_factor * Pspace.T), entry by entry *)
+Theorem C11_scaled_transpose_sound :
+  forall R P c, check_scaled_transpose R P c = true ->
+  forall i j, (i < length R)%nat -> (j < length P)%nat ->
+  (D2Q (nth j (nth i R []) d0) == D2Q c * D2Q (nth i (nth j P []) d0))%Q.
+Proof. exact scaled_transpose_sound. Qed.
+Print Assumptions C11_scaled_transpose_sound.
+
 (* ------------------------------------------------------------------------------------------------
    (5) the supports the rows are validated against ARE the k nearest coarse points.
    Periodic, odd fine index i, even order k <= nc: k entries, distinct columns, every entry is a periodic image
